@@ -102,8 +102,10 @@ _S_THICK, _S_LMIN, _S_STROKE = _edge(*THICK_FRAC), _edge(*LMIN_RADII), _edge(*ST
 _S_HAND = st.sampled_from([1, -1])
 _S_SHAPE = st.sampled_from(["any", "any", "any", "any", "vertex", "vertex", "flat", "tall"])
 _S_ENDS = st.lists(st.integers(0, 1), min_size=7, max_size=7)
-_S_FLAT_RATIO, _S_FLAT_LMIN = _edge(0.95, 1.0), _edge(0.8, 0.85)
-_S_FLAT_STROKE, _S_FLAT_THICK, _S_FLAT_SPACING = _edge(1.5, 1.55), _edge(0.0, 0.01), _edge(5.0, 8.0)
+# "flat": a small neighbourhood of the one corner of the box where the legs lie flattest (equal plates, tightest joint
+# pairs, shortest legs, shortest stroke, thin plates).  Only there is the neutral height below half the minimum leg.
+_S_FLAT_RATIO, _S_FLAT_LMIN = _edge(0.995, 1.0), _edge(0.8, 0.802)
+_S_FLAT_STROKE, _S_FLAT_THICK, _S_FLAT_SPACING = _edge(1.5, 1.503), _edge(0.0, 0.001), _edge(5.0, 5.2)
 _S_TALL_LMIN, _S_TALL_STROKE = _edge(1.3, 1.5), _edge(1.8, 2.0)
 _S_ALT = st.one_of(st.just(0.0), st.just(0.0), G.floats(-180.0, 180.0), st.sampled_from([30.0, -60.0, 90.0]))
 _S_BASE = base_poses()
